@@ -154,6 +154,8 @@ pub struct EntityCfg {
     pub default_recipe: Vec<Op>,
     /// hand every chunk of two or more bytes over as two non-contiguous pieces
     pub split: bool,
+    /// the modification time lies BEFORE the epoch, mtime_ns being its distance (harness-level checks only)
+    pub mtime_before_epoch: bool,
 }
 
 #[derive(Default)]
@@ -218,6 +220,9 @@ impl http_serve::Entity for ScriptedEntity {
     fn last_modified(&self) -> Option<SystemTime> {
         self.cfg
             .mtime_ns
-            .map(|ns| SystemTime::UNIX_EPOCH + Duration::new((ns / 1_000_000_000) as u64, (ns % 1_000_000_000) as u32))
+            .map(|ns| {
+                let d = Duration::new((ns / 1_000_000_000) as u64, (ns % 1_000_000_000) as u32);
+                if self.cfg.mtime_before_epoch { SystemTime::UNIX_EPOCH - d } else { SystemTime::UNIX_EPOCH + d }
+            })
     }
 }
